@@ -142,6 +142,65 @@ def analyse(src: str):
     return before, after, identity
 
 
+PROCESS = {"process_object", "process_objects", "process_object_with_key"}
+
+
+def scan_from_json(repo: Path):
+    """every class whose from_json touches the registry `dic` DIRECTLY (not through process_object):
+    -> (writers, readers, problems)
+       writers : [(class, k_test, k_reg)]  number of process_object(s) calls that lexically precede the class's own
+                 `if id_ in dic: raise` test and its `dic[id_] = obj` registration (the model assumes k_test == k_reg:
+                 the test stands immediately before the registration)
+       readers : [class]  classes that read `dic[...]` themselves (a reference resolved without process_object)"""
+    writers, readers, problems = [], [], []
+    for f in sorted((Path(repo) / "torchtree").rglob("*.py")):
+        try:
+            tree = ast.parse(f.read_text())
+        except SyntaxError as e:
+            problems.append(f"{f.name}: {e}")
+            continue
+        for cls in [n for n in ast.walk(tree) if isinstance(n, ast.ClassDef)]:
+            for fn_ in [n for n in cls.body if isinstance(n, ast.FunctionDef) and n.name in ("from_json", "_parse_json")]:
+                if len(fn_.args.args) < 2:
+                    continue
+                dic = fn_.args.args[-1].arg
+                calls = sorted((n.lineno, n.col_offset) for n in ast.walk(fn_)
+                               if isinstance(n, ast.Call) and isinstance(n.func, ast.Name) and n.func.id in PROCESS)
+
+                def before(node):
+                    return sum(1 for c in calls if c < (node.lineno, node.col_offset))
+
+                stores = [n for n in ast.walk(fn_) if isinstance(n, (ast.Assign, ast.AugAssign))
+                          for t in (n.targets if isinstance(n, ast.Assign) else [n.target])
+                          if isinstance(t, ast.Subscript) and isinstance(t.value, ast.Name) and t.value.id == dic]
+                tests = [n for n in ast.walk(fn_) if isinstance(n, ast.If) and isinstance(n.test, ast.Compare)
+                         and len(n.test.ops) == 1 and isinstance(n.test.ops[0], ast.In)
+                         and isinstance(n.test.comparators[0], ast.Name) and n.test.comparators[0].id == dic]
+                loads = [n for n in ast.walk(fn_) if isinstance(n, ast.Subscript) and isinstance(n.ctx, ast.Load)
+                         and isinstance(n.value, ast.Name) and n.value.id == dic]
+                other = [n for n in ast.walk(fn_) if isinstance(n, ast.Call) and isinstance(n.func, ast.Attribute)
+                         and isinstance(n.func.value, ast.Name) and n.func.value.id == dic]
+                dels = [n for n in ast.walk(fn_) if isinstance(n, ast.Delete)
+                        for t in n.targets if isinstance(t, ast.Subscript) and isinstance(t.value, ast.Name) and t.value.id == dic]
+                if other or dels:
+                    problems.append(f"{cls.name}.{fn_.name}: method call / del on the registry")
+                if stores:
+                    if len(stores) != 1 or len(tests) != 1 or not all(isinstance(s_, ast.Raise) for s_ in tests[0].body):
+                        problems.append(f"{cls.name}.{fn_.name}: {len(stores)} registry writes, {len(tests)} membership tests")
+                        writers.append((cls.name, 99, before(stores[0])))
+                    else:
+                        key = stores[0].targets[0].slice
+                        tkey = tests[0].test.left
+                        if not (isinstance(key, ast.Name) and isinstance(tkey, ast.Name) and key.id == tkey.id):
+                            problems.append(f"{cls.name}.{fn_.name}: registers under another key than the one it tests")
+                        writers.append((cls.name, before(tests[0]), before(stores[0])))
+                elif tests:
+                    problems.append(f"{cls.name}.{fn_.name}: tests the registry without registering")
+                if loads:
+                    readers.append(cls.name)
+    return sorted(writers), sorted(set(readers)), problems
+
+
 def translate(repo: Path):
     """-> (lean source, recognised: bool, note)"""
     src = (Path(repo) / "torchtree" / "core" / "utils.py").read_text()
@@ -152,6 +211,10 @@ def translate(repo: Path):
         before, after, identity, ok, note = False, False, False, False, f"unrecognised: {e}"
     except SyntaxError as e:
         before, after, identity, ok, note = False, False, False, False, f"unparsable: {e}"
+    writers, readers, problems = scan_from_json(repo)
+    if problems:
+        ok = False
+        note += "; from_json scan: " + "; ".join(problems)
     b = lambda x: "true" if x else "false"  # noqa: E731
     lean = (
         "import TTModel.C13_Loader\n"
@@ -160,6 +223,12 @@ def translate(repo: Path):
         "namespace TTGen.C13\n"
         f"def recognised : Bool := {b(ok)}\n"
         f"def cfg : TT.C13.Cfg := ⟨{b(before)}, {b(after)}, {b(identity)}⟩\n"
+        "/-- classes whose from_json writes to the registry itself: (class, process_object calls before its own\n"
+        "    duplicate test, process_object calls before its registration) -/\n"
+        "def dicWriters : List (String × Nat × Nat) := ["
+        + ", ".join(f'("{c}", {kt}, {kr})' for c, kt, kr in writers) + "]\n"
+        "/-- classes whose from_json reads `dic[...]` itself -/\n"
+        "def dicReaders : List String := [" + ", ".join(f'"{c}"' for c in readers) + "]\n"
         "end TTGen.C13\n"
     )
     return lean, ok, note
